@@ -56,7 +56,7 @@ def canon_parsed(ir) -> dict:
     ret = None
     if ir.get("returns"):
         rt = ir["returns"].get("return_type", {})
-        ret = {"typ": rt.get("typ"), "doc": rt.get("doc"), "extra": sorted(k for k in rt if k not in ("typ", "doc"))}
+        ret = {"typ": rt.get("typ"), "doc": rt.get("doc"), "default": opt(rt, "default"), "extra": sorted(k for k in rt if k not in ("typ", "doc", "default"))}
     return {"name": [] if ir.get("name") is None else [g.to_wire(ir["name"])], "doc": ir.get("doc"), "params": params, "returns": ret}
 
 
@@ -66,7 +66,7 @@ def canon_model_parsed(o) -> dict:
     p = o["ok"]
     params = [[nm, {"typ": v["typ"], "doc": v["doc"], "default": v["default"], "extra": sorted(v["extra"][1], key=lambda kv: kv[0])}]
               for nm, v in p["params"]]
-    ret = None if p["returns"] is None else {"typ": p["returns"]["typ"], "doc": p["returns"]["doc"], "extra": []}
+    ret = None if p["returns"] is None else {"typ": p["returns"]["typ"], "doc": p["returns"]["doc"], "default": [], "extra": []}
     return {"name": [] if p["name"] == [None] else p["name"], "doc": p["doc"], "params": params, "returns": ret}  # name None = JSON null
 
 
@@ -201,6 +201,29 @@ def norm_ws(s):
     return " ".join(s.split()) if isinstance(s, str) else s
 
 
+def norm_doc(s):
+    """DESIGN §3 normDoc: collapse whitespace, drop one terminal '.'"""
+    if not isinstance(s, str):
+        return s
+    s = " ".join(s.split())
+    return s[:-1] if s.endswith(".") else s
+
+
+def ret_default_region(sr) -> str:
+    """Where a return entry *with a default* lies (the default travels through the description text
+    ":return: <doc>. Defaults to <default>" and is read back by extract_default)."""
+    d = sr["default"]
+    if not sr["doc"]:
+        return "no-doc"            # no ":return:" line is written at all, so nothing announces the default
+    if d[0] == "n":
+        return "none-default"
+    if d[0] == "s" and d[1] == "":
+        return "empty-str-default"
+    if d[0] == "s" and "." in d[1]:
+        return "str-default-with-dot"
+    return "plain"
+
+
 def typed(v):
     return "%s:%r" % (type(v).__name__, v)
 
@@ -303,10 +326,29 @@ def oracle_static(S, r):
     elif sr is not None:
         if typ_view(g.render_typ(sr["typ"])) != typ_view(pr["typ"]):
             fails.append(({"kind": "roundtrip", "field": "returns-typ"}, "return typ %r → %r" % (g.render_typ(sr["typ"]), pr["typ"])))
-        if norm_ws(sr["doc"]) != norm_ws(pr["doc"]):
+        rd = sr.get("default")
+        got = [g.from_wire(x) for x in pr.get("default", [])]
+        # DESIGN §3 normDoc: whitespace collapsed, one terminal '.' dropped — when a default is announced the emitter ends the
+        # doc with a '.' before " Defaults to …", so "the outcome" comes back as "the outcome."
+        nd = (lambda x: norm_doc(x)) if rd is not None else norm_ws
+        if nd(sr["doc"] or None) != nd(pr["doc"] or None):  # an empty return doc and no return doc are the same entry
             # word-wrap at 100 columns may break inside a word (after a hyphen, or a word longer than the line)
             how = "wrap-inserted-whitespace" if isinstance(sr["doc"], str) and isinstance(pr["doc"], str) and "".join(sr["doc"].split()) == "".join(pr["doc"].split()) else "other"
-            fails.append(({"kind": "roundtrip", "field": "returns-doc", "how": how}, "return doc %r → %r" % (sr["doc"], pr["doc"])))
+            sig = {"kind": "roundtrip", "field": "returns-doc", "how": how}
+            if rd is not None:
+                sig["region"] = ret_default_region(sr)
+            fails.append((sig, "return doc %r → %r" % (sr["doc"], pr["doc"])))
+        if rd is None:
+            if got:
+                fails.append(({"kind": "roundtrip", "field": "returns-default", "from": "absent", "to": "present"}, "return entry without default → default %r" % (got[0],)))
+        else:
+            want = g.default_to_py(rd, sr.get("none_as", "NoneStr"))
+            if rd[0] == "n":
+                want = g.NONE_STR
+            if not got or typed(got[0]) != typed(want):
+                fails.append(({"kind": "roundtrip", "field": "returns-default", "from": rd[0], "to": "absent" if not got else "other", "region": ret_default_region(sr)},
+                              "return entry (%s, doc %r): default %s → %s (description %r)" % (
+                                  g.render_typ(sr["typ"]), sr["doc"], typed(want), typed(got[0]) if got else "absent", schema.get("description") if schema else None)))
         if pr["extra"]:
             fails.append(({"kind": "roundtrip", "field": "returns-extra-keys"}, "return entry acquired keys %r" % (pr["extra"],)))
     return fails
@@ -651,6 +693,7 @@ def run(chk: core.Check) -> int:
         "regex semantics: re.search for alternations of literal strings without regular-expression metacharacters (patAccepts; printable ASCII minus . ^ $ * + ? { } [ ] \\ | ( )), tied to Python's re and to jsonschema's `pattern` on generated pairs; patterns with metacharacters (emitted unescaped) are observed on the real code only",
         "Literal members: Typ.render quotes them as '…' (what the parser rebuilds); the harness hands Python's repr to the real code — equal on the domain (no ' and no backslash); return-type Literals keep word-character members (they travel through the docstring)",
         "float defaults: finite decimals without exponent whose repr round-trips; NaN/Infinity are outside the domain",
+        "a default on the *return entry* travels through the description text (\":return: <doc>. Defaults to <default>\", set_default_doc / extract_default in cdd/shared/defaults_utils.py): not modelled in Lean; observed on the real code by the round-trip oracle (doc compared with DESIGN §3 normDoc: one terminal '.' dropped)",
         "the interface view excludes the function name (DESIGN §3): parse returns name None for every emitted schema ($id is not read back)",
     ]
     have_driver = core.DRIVER.exists()
@@ -676,6 +719,15 @@ def run(chk: core.Check) -> int:
     cases += [("domain", g.gen_S(rng, max_params=14)) for _ in range(n_dom // 30)]
     cases += [("wrap", gen_wrap_S(rng)) for _ in range(n_wrap)]
     cases += [("edge", gen_edge_S(rng)) for _ in range(n_edge)]
+    # return entries that carry a default (it travels through the description text): deterministic corners first —
+    # every scalar kind, falsy and truthy, with a doc that does / does not end in '.' — then generated ones (oracle only)
+    for b, ds in (("int", [0, 3, -3]), ("float", ["0.0", "1.5"]), ("bool", [False, True]), ("str", ["abc", "a b"])):
+        for d in ds:
+            for doc in ("the outcome.", "the outcome"):
+                for o in (False, True):
+                    cases.append(("retdefault", {"name": "F", "doc": "Count the widgets.", "params": [["start", P(base("int"), "where to start", ["i", 0])]],
+                                                 "returns": {"typ": base(b, o), "doc": doc, "default": [{"int": "i", "float": "f", "bool": "b", "str": "s"}[b], d], "none_as": "NoneStr"}}))
+    cases += [("retdefault", g.gen_retdefault_S(rng)) for _ in range(250 if chk.quick else 3000)]
     Ss = [S for _, S in cases]
     impl = robust_map(impl_emit_parse, Ss)
     model = core.model_batch([{"op": "c06.emit", "ir": g.S_for_model(S)} for S in Ss]) if have_driver else None
@@ -691,7 +743,7 @@ def run(chk: core.Check) -> int:
         bump("stream", stream)
         bump("nparams", len(S["params"]))
         bump("doc", "empty" if not S["doc"] else ("multi-line" if "\n" in S["doc"] else "one-line"))
-        bump("returns", "none" if S["returns"] is None else ("typ+doc" if S["returns"]["doc"] else "typ"))
+        bump("returns", "none" if S["returns"] is None else ("typ+doc" if S["returns"]["doc"] else "typ") + ("+default" if S["returns"].get("default") else ""))
         for _, p in S["params"]:
             bump("typ", _tk(p["typ"]))
             bump("default", "absent" if p["default"] is None else p["default"][0])
@@ -704,7 +756,7 @@ def run(chk: core.Check) -> int:
         if k in (1, 2, len(WITNESSES) + 1, len(WITNESSES) + 2, len(WITNESSES) + 40, len(WITNESSES) + 41):
             chk.sample({"stream": stream, "ir": g.to_py_ir(S) and json.loads(json.dumps(g.to_py_ir(S), default=repr)),
                         "emitted": None if "schema" not in r else g.from_wire(r["schema"]) if not _has_bang(r["schema"]) else "non-JSON"})
-        if m is None or stream in ("wrap", "witness-wrap") or r.get("skipped"):
+        if m is None or stream in ("wrap", "witness-wrap", "retdefault") or r.get("skipped"):
             continue
         if "error" in m:
             raise core.HarnessError("c06.emit: %s" % m["error"])
@@ -900,7 +952,7 @@ def run(chk: core.Check) -> int:
     except Exception as e:  # noqa
         chk.notes.append("line coverage not measured: %r" % e)
     return chk.finish("interfaces from the JSON-representable domain (0..8 parameters, a few up to 14; int/float/str/bool/dict/list, Optional[..], "
-                      "Literal[str..] with arbitrary short printable-ASCII members (blank, hyphen, dot, +, brackets, …; a few with | ' \\ or only '' — outside the round-trip domain, oracle + emit/parse ties only), typed defaults incl. None, with/without docs and return entry) + word-wrapped return entries "
+                      "Literal[str..] with arbitrary short printable-ASCII members (blank, hyphen, dot, +, brackets, …; a few with | ' \\ or only '' — outside the round-trip domain, oracle + emit/parse ties only), typed defaults incl. None, with/without docs and return entry) + word-wrapped return entries + return entries carrying a typed default (deterministic falsy/truthy corners, then generated) "
                       "(oracle only) + typed-default corner cases (correspondence only); non-trivial = in the model's domain with >=2 parameters, a Literal and a default; "
                       "mutants of emitted schemas for the meta-schema / instance-validation / parser ties")
 
